@@ -248,6 +248,15 @@ def correspondence(ctx, model_ok=True):
                                      "observed_height": height, "annotated": exp, "signature": "model-vs-real height at %s" % opnames().get(opc, opc),
                                      "failing_input": False})
                     break
+    # which variable an access reaches: scoping scenarios in every wrapper and the resolution grid, expectations built from the rule
+    from props import c06 as _c06
+    ident = _c06.fixed_expectation_programs()
+    ires, _ = progs.run_programs(ctx.runner, [(n, src, {}) for n, src, _ in ident], {"gc": "default"}, tag="i")
+    for (name, src, exp), r in zip(ident, ires):
+        o = progs.canon_step(r)
+        if not _c06.meets(o, exp):
+            failures.append({"what": "a variable access does not reach the variable the source names (%s): expected %s, observed %s" % (name, str(exp)[:200], str(o)[:200]),
+                             "program": src, "name": name, "signature": "variable access " + name.split(":")[0].split("/")[0], "failing_input": True})
     # limit programs: must be a compile error or run to "done"
     for (name, src, mods), r in zip(allp, res):
         if not name.startswith("limit:") or not isinstance(r, dict):
@@ -281,7 +290,7 @@ def correspondence(ctx, model_ok=True):
         for t in tg:
             tags[t] = tags.get(t, 0) + 1
     cov = {
-        "evaluations": n_fn,
+        "evaluations": n_fn + len(ident), "variable_access_programs": len(ident),
         "distinct_nontrivial": len(set(requests)),
         "rule": "every function compiled from generated programs (profiles %s), repository scripts, corpus and limit programs is verified; "
                 "distinct = distinct (arity, upvalues, code, constant kinds); executed instructions of accepted functions compared with the annotation" % ",".join(PROFILES),
